@@ -10,6 +10,14 @@ is still suspended is closed.
 Ob C17.b (real searches): evaluate_bounded over YP.query on compiled skeletons whose
 user predicate u/1 raises RecursionError at a symbolic invocation; the result is a prefix
 of refprolog's answers, every Variable created is unbound afterwards, the limit restored.
+Ob C17.c (strike inside a term unification): evaluate_bounded over YP.query on <=3 dynamic
+facts item(c,_,_) with symbolic integer constants; the query's first argument is a variable
+or a symbolic integer, and a later argument is a foreign IUnifiable term whose unify()
+raises RecursionError at a symbolic invocation - i.e. inside unify_arrays, while the
+unification of the earlier argument is suspended with its binding in place and outside
+unify_arrays' try/finally.  Checks: limit restored, nothing escapes, result equals the
+expected prefix, every Variable created is unbound when evaluate_bounded returns (no
+reliance on the cyclic garbage collector to finalise the suspended unifications).
 Validation (native, not the decider): real low limits on a deep and a left-recursive program.
 """
 import sys as _realsys
@@ -27,10 +35,10 @@ FUNCTIONS = ['engine.YP.evaluate_bounded', 'engine.YP.query', 'generated code of
              'engine.YP.findall', 'engine.YP.builtin_neq', 'engine.Variable.unify', 'engine.unify_arrays']
 STUBS = ['SysStub assigned to yldprolog.engine.sys: getrecursionlimit/setrecursionlimit store and return an arbitrary (symbolic) int',
          'the recursion limit striking is modelled as RecursionError raised by the user predicate u/1 at a symbolic invocation '
-         '(or by the source generator at a symbolic index)',
+         '(or by the source generator at a symbolic index, or - C17.c - by the unify() of a foreign IUnifiable term inside unify_arrays)',
          'Variable registry via the YLDPROLOG_VERIF hook']
 ASSUMPTIONS = ['one thread; the caller\'s own stack is shallower than the limit']
-OUTSIDE = ['strikes of the real limit inside engine internals (between a binding and its try block)', 'other threads',
+OUTSIDE = ['strikes of the real limit at other points inside engine internals (between a binding and its try block); C17.c covers the strike inside a nested unification of unify_arrays', 'other threads',
            'the native validation with real limits is not a solver verdict']
 BOUNDS = {'quick': 'C17.a: <=3 answers, all raise kinds/indices, limits symbolic ints; C17.b: 6 skeletons, <=2 facts, strike at invocation 0(never)..4, '
                    'projection raising at answer 0(never)..2',
@@ -246,6 +254,87 @@ def make_body_b(sk, code, cap, info):
     return spec, body
 
 
+def make_body_c(info):
+    """C17.c: the recursion limit striking INSIDE a term unification.  A foreign IUnifiable term ("probe") stands as a later
+    argument of the query; its unification raises RecursionError at a symbolic invocation, i.e. inside unify_arrays while the
+    unification of an earlier argument is suspended with its binding in place."""
+    spec = [('strike', 'int', '0 <= strike <= 4'), ('c0', 'int', None), ('c1', 'int', None), ('c2', 'int', None), ('nf', 'int', '0 <= nf <= 3'),
+            ('qvar', 'bool', None), ('qc', 'int', None), ('pos', 'int', '0 <= pos <= 1'), ('old', 'int', '50 <= old <= 100000')]
+    ix = ch.index_of(spec)
+
+    def body(vals):
+        from yldprolog.engine import IUnifiable, get_value
+        reg = ch.install_registry(True)
+        yp = ch.new_engine()
+        strike, nf, pos = vals[ix['strike']], vals[ix['nf']], vals[ix['pos']]
+        consts = [vals[ix['c0']], vals[ix['c1']], vals[ix['c2']]]
+        state = {'calls': 0}
+
+        class Probe(IUnifiable):
+            def get_value(self):
+                return self
+
+            def to_python(self):
+                return 'probe'
+
+            def unify(self, other):
+                state['calls'] += 1
+                if strike != 0 and state['calls'] == strike:
+                    raise RecursionError('maximum recursion depth exceeded')
+                yield False
+        i = 0
+        while i < 3:
+            if i < nf:
+                # item(c_i, _, _): the probe meets an unbound variable of the stored fact
+                yp.assert_fact(yp.atom('item'), [consts[i], yp.variable(), yp.variable()])
+            i += 1
+        x = yp.variable() if vals[ix['qvar']] else vals[ix['qc']]
+        probe = Probe()
+        y = yp.variable()
+        args = [x, probe, y] if pos == 0 else [x, y, probe]
+        # expected: facts whose first argument unifies with x, in order, until the strike-th probe unification
+        exp = []
+        seen = 0
+        struck = False
+        i = 0
+        while i < 3 and not struck:
+            if i < nf and (vals[ix['qvar']] or consts[i] == vals[ix['qc']]):
+                seen += 1
+                if strike != 0 and seen == strike:
+                    struck = True
+                else:
+                    exp.append(consts[i])
+            i += 1
+        stub = SysStub(vals[ix['old']])
+        saved = engine.sys
+        engine.sys = stub
+        escaped = None
+        result = None
+        q = yp.query('item', args)
+        try:
+            try:
+                result = yp.evaluate_bounded(q, lambda _: get_value(x), 60)
+            except Exception as e:
+                escaped = e
+        finally:
+            engine.sys = saved
+        if stub.limit != vals[ix['old']]:
+            ch.note(info, 'recursion limit not restored')
+            return ch.VIOLATED
+        if escaped is not None:
+            ch.note(info, 'escaped: %s %s', type(escaped).__name__, str(escaped)[:100])
+            return ch.VIOLATED
+        for v in reg.items:
+            if v._is_bound:
+                ch.note(info, 'a variable is still bound after evaluate_bounded returned (strike inside unify_arrays at probe unification %r)', strike)
+                return ch.VIOLATED
+        if result != exp:
+            ch.note(info, 'result %r differs from the expected prefix %r', result, exp)
+            return ch.VIOLATED
+        return ch.HOLDS_NONTRIVIAL if struck else ch.HOLDS_TRIVIAL
+    return spec, body
+
+
 class NativeValidation(DirectUnit):
     """real recursion limits on a deep and a left-recursive program (validates the strike stub)"""
 
@@ -303,6 +392,10 @@ def units(tier, seed):
                            quick=(tier == 'quick'), ob='C17.b', timeout=300 if tier == 'quick' else 1500, weight=60, cap=8,
                            bounds='skeleton %s, <=%d facts, strike at user-predicate invocation 0..4, projection raising at answer %d (0=never)'
                                   % (sk['name'], nf, pat)))
+    for pos in (0, 1):
+        us.append(dict(id='c.strike-in-unify.pos%d' % pos, kind='c', fixed={'pos': pos}, ob='C17.c', timeout=300, weight=30,
+                       bounds='<=3 dynamic facts item(c,_,_) with symbolic int constants, query first argument a variable or a symbolic int, '
+                              'foreign term at argument %d whose unification raises RecursionError at invocation 0(never)..4' % (pos + 1)))
     us.append(dict(id='v.native-limits', kind='v', fixed={}, ob='validation', timeout=120, weight=10,
                    bounds='native: limits 60..200 on nat/1 (infinitely many answers) and a left-recursive predicate'))
     return us
@@ -312,6 +405,9 @@ def build(u):
     info = {}
     if u['kind'] == 'v':
         return NativeValidation()
+    if u['kind'] == 'c':
+        spec, body = make_body_c(info)
+        return ch.harness_from_spec(u['id'], spec, u['fixed'], body, info=info)
     if u['kind'] == 'a':
         spec, body = make_body_a(info)
         return ch.harness_from_spec(u['id'], spec, u['fixed'], body, info=info)
